@@ -178,3 +178,49 @@ func TestKF_SparseRangeScanMissingDir(t *testing.T) {
 	_, _ = tx.RangeScan("b", []byte("a"), []byte("z"))
 	_ = tx.Rollback()
 }
+
+func TestKF_TombstoneConsumesLimitSearch(t *testing.T) {
+	db, dir := kfOpen(t, HintKeyValAndRAMIdxMode, 4096)
+	defer os.RemoveAll(dir)
+	_ = db.Update(func(tx *Tx) error {
+		for _, k := range []string{"ka", "kb", "kc"} {
+			if err := tx.Put("b", []byte(k), []byte("v"), 0); err != nil {
+				return err
+			}
+		}
+		return nil
+	})
+	_ = db.Update(func(tx *Tx) error { return tx.Delete("b", []byte("ka")) })
+	_ = db.View(func(tx *Tx) error {
+		es, _, err := tx.PrefixSearchScan("b", []byte("k"), "[a-c]", 0, 1)
+		if err != nil || len(es) != 1 || string(es[0].Key) != "kb" {
+			t.Errorf("REPRODUCED: PrefixSearchScan(k,[a-c],0,1) = (%d entries, %v) although kb and kc are live and match: the deleted ka consumed the limit", len(es), err)
+		}
+		return nil
+	})
+}
+
+func TestKF_TombstoneConsumesOffset(t *testing.T) {
+	db, dir := kfOpen(t, HintKeyValAndRAMIdxMode, 4096)
+	defer os.RemoveAll(dir)
+	_ = db.Update(func(tx *Tx) error {
+		for _, k := range []string{"ka", "kb", "kc"} {
+			if err := tx.Put("b", []byte(k), []byte("v"), 0); err != nil {
+				return err
+			}
+		}
+		return nil
+	})
+	_ = db.Update(func(tx *Tx) error { return tx.Delete("b", []byte("ka")) })
+	_ = db.View(func(tx *Tx) error {
+		es, _, err := tx.PrefixScan("b", []byte("k"), 1, 1)
+		if err != nil || len(es) != 1 || string(es[0].Key) != "kc" {
+			got := ""
+			if len(es) > 0 {
+				got = string(es[0].Key)
+			}
+			t.Errorf("REPRODUCED: PrefixScan(k,1,1) = (%q, %v), the live keys are kb, kc so skipping one must give kc: the deleted ka consumed the offset", got, err)
+		}
+		return nil
+	})
+}
